@@ -9,3 +9,9 @@ import SF.Props.C10
 #print axioms SF.C10.cumulative_view_linear
 #print axioms SF.C10.sma_dc
 #print axioms SF.C10.ema_dc
+#print axioms SF.C10.superSmoother_linear
+#print axioms SF.C10.laguerre_linear
+#print axioms SF.C10.roofing_linear
+#print axioms SF.C10.superSmoother_view_linear
+#print axioms SF.C10.laguerre_view_linear
+#print axioms SF.C10.laguerre_dc
